@@ -39,6 +39,8 @@ class WireMonitor:
         self.next_frm = 0
         self.failed = False
         self.nak_at = None
+        self.reset_since = False
+        self.failed_prev = None
         self.error_at = None  # time an intact ERROR frame was handed to the host
         self.error_unclaimed = 0
         self.rstack_pending = 0
@@ -98,17 +100,25 @@ class WireMonitor:
                 self.outstanding = [frm, payload, lc[2] + 1, now]
                 if lc[2] + 1 > ACK_TIMEOUTS:
                     self._v("C05.budget", "attempts", f"frame {frm} transmitted {lc[2] + 1} times")
-                self.next_frm = frm
                 return
             if frm != self.next_frm:
                 self._v("C05.window", "numbering", f"new DATA frame numbered {frm}, expected {self.next_frm} (t={now:.6f})")
             if retx:
                 self._v("C05.same", "retx-first", f"reTx set on the first transmission of frame {frm} (t={now:.6f})")
             self.outstanding = [frm, payload, 1, now]
+            self.next_frm = (frm + 1) % 8
+            return
+        if frm != o[0] and self.reset_since and frm == 0 and not retx:
+            # an RSTACK arrived while frame o[0] was outstanding: numbering restarted
+            self._probe("new_frame_after_rstack_midsend")
+            self.reset_since = False
+            self.outstanding = [frm, payload, 1, now]
+            self.next_frm = 1
             return
         if frm != o[0]:
             self._v("C05.window", "second-outstanding", f"DATA frame {frm} written while frame {o[0]} is unacknowledged (t={now:.6f})")
             self.outstanding = [frm, payload, 1, now]
+            self.next_frm = (frm + 1) % 8
             return
         # a repeat
         if payload != o[1]:
@@ -144,12 +154,13 @@ class WireMonitor:
                 if covers:
                     self.last_covered = (o[0], o[1], o[2], now)
                     self.outstanding = None
-                    self.next_frm = (o[0] + 1) % 8
+                    self.reset_since = False
                 if k == "nak" and not covers:
                     self.nak_at = now
             elif k == "rstack":
                 self.rstack_pending += 1
-                self.outstanding = None
+                # a frame still outstanding may be repeated (same number, reTx) or abandoned for a new frame 0
+                self.reset_since = self.outstanding is not None
                 self.last_covered = None
                 self.next_frm = 0
                 self.failed = False
@@ -178,8 +189,15 @@ class WireMonitor:
             # the covering ACK and the last timeout were processed in one iteration: counted as a timeout
             self._probe("fail_after_cover_same_instant")
             self.last_covered = None
+        elif (o is None and self.failed_prev is not None and self.failed_prev[2] >= ACK_TIMEOUTS
+              and abs(self.failed_prev[3] - now) <= EPS):
+            # ERROR frame and the last ACK timeout in the same iteration: two events, one notification each
+            self._probe("fail_by_budget_and_error_same_instant")
+            self.failed_prev = None
         else:
             self._v("C05.fail", "spurious-notification", f"failure notification ({int(code)}) at t={now:.6f} explained neither by an ERROR frame nor by an exhausted budget")
         self.failed = True
+        if o is not None and o[2] > 0:
+            self.failed_prev = (o[0], o[1], o[2], now)
         self.outstanding = None
         return "failure"
